@@ -48,3 +48,102 @@ COMMON_ASSUMPTIONS = [
 ]
 
 PROPS: Dict[str, dict] = {}
+
+from .rules_units import r08_1_units
+from . import rules_kernelspec as KS
+from .rules_symmetry import infer_mode
+
+
+# ---------------------------------------------------------------------------------------------
+# kernel selections (by role, through the families discovered from the dispatch sites)
+# ---------------------------------------------------------------------------------------------
+def fam_by_class(ctx, cls: Optional[str] = None, wrapper_suffix: Optional[str] = None):
+    out = []
+    for f in eng(ctx).families:
+        if cls is not None and f.wrapper.cls == cls:
+            out.append(f)
+        if wrapper_suffix is not None and f.wrapper.name.endswith(wrapper_suffix):
+            out.append(f)
+    return out
+
+
+def measure_family(ctx, result_class: str, discrete_kind: Optional[str] = None):
+    """measure families whose wrapper builds a `result_class` object from the kernel result"""
+    import ast as _ast
+    out = []
+    for f in eng(ctx).families:
+        if f.wrapper.cls:
+            continue
+        uses = set()
+        for n in _ast.walk(f.wrapper.node):
+            if isinstance(n, _ast.Call) and isinstance(n.func, _ast.Name):
+                c = ctx.repo.resolve_class(f.wrapper.module, n.func.id)
+                if c:
+                    uses.add(c[1])
+        if result_class in uses:
+            out.append(f)
+    return out
+
+
+def isi_family(ctx):
+    fs = measure_family(ctx, 'PieceWiseConstFunc')
+    return fs[0] if fs else None
+
+
+def spike_family(ctx):
+    fs = measure_family(ctx, 'PieceWiseLinFunc')
+    return fs[0] if fs else None
+
+
+def discrete_families(ctx):
+    """{'sync': fam, 'order': fam, 'dir': fam, 'single': fam} classified by the constants their kernels store"""
+    out = {}
+    e = eng(ctx)
+    for f in e.families:
+        if f.wrapper.cls or not e.has_merge_loop(f.py):
+            if not f.wrapper.cls and not e.has_merge_loop(f.py):
+                out['single'] = f
+            continue
+        roles, _ = e.roles_of(f.py)
+        if roles is None or roles.kind != 'cursor':
+            continue
+        if f in (isi_family(ctx), spike_family(ctx)):
+            continue
+        mode, negs, rk = infer_mode(f.py, roles.loop[-1])
+        if mode == 'anti':
+            out['order'] = f
+        elif rk == 'swap':
+            out['dir'] = f
+        else:
+            out['sync'] = f
+    return out
+
+
+def kernels_of(fams) -> Set[str]:
+    names = set()
+    for f in fams:
+        if f is None:
+            continue
+        for k in (f.py, f.pyx, f.single):
+            if k is not None:
+                names.add(k.name)
+    return names
+
+
+def merge_idiom_obs(ctx, fams, rule: str) -> List[Ob]:
+    e = eng(ctx)
+    out: List[Ob] = []
+    for f in fams:
+        if f is None:
+            continue
+        for k in (f.py, f.pyx, f.single):
+            if k is None or not e.has_merge_loop(k):
+                continue
+            roles, obs = e.roles_of(k)
+            for o in obs:
+                out.append(Ob(rule, f"{k.name} ({k.path}): {o.title}", o.status, o.where, o.detail, o.key, o.construct, o.extra))
+    return out
+
+
+def helper_pairs_named(ctx, names: Set[str]) -> Set[str]:
+    return names
